@@ -71,10 +71,10 @@ func c21Run(r *simkit.Run) {
 	var chain []*dbBlock
 
 	type phase struct {
-		name     string
-		lo, hi   int
-		before   *dbModel // acknowledged before the phase began
-		after    *dbModel // acknowledged after it returned
+		name   string
+		lo, hi int
+		before *dbModel // acknowledged before the phase began
+		after  *dbModel // acknowledged after it returned
 	}
 
 	var phases []phase
@@ -263,11 +263,11 @@ func c21Run(r *simkit.Run) {
 
 func init() {
 	simkit.Register(&simkit.Harness{
-		ID:   "C21",
-		Run:  c21Run,
-		Real: []string{"isaacdatabase.LeveldbBlockWrite/TempLeveldb/Center/LeveldbPermanent (block write, temp merge marker, parallel permanent merge, loadTemps, start-up MergeAllPermanent)", "leveldbstorage", "goleveldb recovery over simdisk"},
-		Stub: []string{"disk: simdisk (operation log; rebuild at any operation in three crash modes)"},
-		Rule: "each run draws a history of 1-4 blocks (small, >128 states, >333 states) with permanent merges; the kernel decides the completion order of the parallel merge batches. Then every disk-operation index inside every block-write and merge phase is a crash point, in three modes (all completed ops; op k torn to a prefix; everything after each file's last Sync dropped); when a history has more points than the budget (60 quick / 400 thorough) a tape-chosen sample is taken (probe crash_points_sampled vs crash_points_exhaustive). After each crash the storage is re-opened with launch's sequence and every read must equal the chain up to the visible last height; acknowledged blocks must survive process crashes. distinct = event-log hash",
+		ID:          "C21",
+		Run:         c21Run,
+		Real:        []string{"isaacdatabase.LeveldbBlockWrite/TempLeveldb/Center/LeveldbPermanent (block write, temp merge marker, parallel permanent merge, loadTemps, start-up MergeAllPermanent)", "leveldbstorage", "goleveldb recovery over simdisk"},
+		Stub:        []string{"disk: simdisk (operation log; rebuild at any operation in three crash modes)"},
+		Rule:        "each run draws a history of 1-4 blocks (small, >128 states, >333 states) with permanent merges; the kernel decides the completion order of the parallel merge batches. Then every disk-operation index inside every block-write and merge phase is a crash point, in three modes (all completed ops; op k torn to a prefix; everything after each file's last Sync dropped); when a history has more points than the budget (60 quick / 400 thorough) a tape-chosen sample is taken (probe crash_points_sampled vs crash_points_exhaustive). After each crash the storage is re-opened with launch's sequence and every read must equal the chain up to the visible last height; acknowledged blocks must survive process crashes. distinct = event-log hash",
 		Assumptions: []string{"a failed reopen is counted (reopen_errors) and is not this property's violation", "power loss may lose acknowledged blocks (goleveldb does not sync its journal per write); only atomicity is judged there"},
 	})
 }
